@@ -52,6 +52,10 @@ CHECKS = {
    technique="differential property-based testing with error interleavings: form sequences fed to aldor -Gloop (erroneous forms from the ill-typed catalogue inserted at drawn positions) versus aldor -Ginterp on the clean file",
    text="Generated sequences of definitions and output statements are fed to the interactive loop one per line, with rejected forms interleaved; the marker lines must equal those of batch interpretation of the clean sequence and every erroneous form must be reported.",
    note="Two loop-only runtime faults are listed known findings matched by fault site.", design="4 C13"),
+ "C16": dict(level="exploration", engine="hypothesis-subprocess",
+   technique="differential property-based testing over C-generation option tuples: generated programs with long shared-prefix identifiers, gcc compile + link against the shipped runtime, run versus the default-option build",
+   text="Generated programs (functions renamed to 40-90 character names sharing a drawn prefix) are compiled with tuples of -Cstandard/-Cold, -Cidhash, -Cidlen, -Csmax (file splitting) and -Clines/-Cno-lines; every emitted C file must compile, the objects must link against the shipped libraries, and the executable must behave like the default build.",
+   note="Non-default identifier lengths are link-checked only (known finding K6: prebuilt libraries use the default limit).", design="4 C16"),
  "C17": dict(level="fault_enumeration", engine="fault-enumeration",
    technique="exhaustive enumeration of truncation points plus seeded single-byte substitutions of valid .ao/.fm/.al files, validity-predicate oracle over five consumers",
    text="Every truncation length of the object file (each point at which a writer could have died) and substitutions at every header/section-table offset and seeded body offsets are fed to five consumers; each must reproduce the intact outputs byte for byte or refuse with a diagnostic and non-zero status, never fault, hang or silently differ.",
@@ -111,7 +115,7 @@ def main():
             {"name": "rapidcheck-stateful", "path": "harness/containers_rc.cc", "serves_properties": ["C10", "C20"], "kind_free_text": "rapidcheck-generated operation histories against reference models"},
             {"name": "exhaustive-loop+hypothesis", "path": "harness/xfloat_check.cc", "serves_properties": ["C19"], "kind_free_text": "exhaustive bit-pattern loops; Hypothesis-generated literals through the compiler"},
             {"name": "fault-enumeration", "path": "vt/props/c17.py", "serves_properties": ["C17", "C18"], "kind_free_text": "enumerated damage / write-fault points applied to real compiler runs"},
-            {"name": "hypothesis-subprocess", "path": "vt/", "serves_properties": ["C01", "C02", "C03", "C05", "C06", "C07", "C08", "C09", "C12", "C13"], "kind_free_text": "Hypothesis-generated programs/inputs driving the compiler under test as a subprocess"},
+            {"name": "hypothesis-subprocess", "path": "vt/", "serves_properties": ["C01", "C02", "C03", "C05", "C06", "C07", "C08", "C09", "C12", "C13", "C16"], "kind_free_text": "Hypothesis-generated programs/inputs driving the compiler under test as a subprocess"},
         ],
         "checks": checks,
         "not_applicable": na,
